@@ -266,7 +266,16 @@ class LocSlice(LocBase):
             istop = coerce_loc_index(self.frame, self.iindexer.stop)
         return istop
 
+    @functools.cached_property
+    def _selects_nothing(self):
+        # loc[b:a] with b > a
+        if self.iindexer.start is None or self.iindexer.stop is None:
+            return False
+        return self.istart > self.istop
+
     def _divisions(self):
+        if self._selects_nothing:
+            return (self.istop, self.istop)
         if self.stop == self.start:
             return (self.istart, self.istop)
 
@@ -287,7 +296,7 @@ class LocSlice(LocBase):
         )
 
     def _layer(self) -> dict:
-        if self.stop == self.start:
+        if self.stop == self.start or self._selects_nothing:
             return {
                 (self._name, 0): (
                     methods.loc,
